@@ -245,6 +245,23 @@ theorem Tracks.absS (ha : Tracks A f θ) (h0 : f θ ≠ 0) :
     Tracks (PfVerif.absS A) (fun t => PfVerif.absS (f t)) θ :=
   (ha.abs h0).congr fun _ => absS_eq_abs _
 
+/-- `abs` of a function that vanishes identically near `θ` (e.g. the difference of a position
+with itself): the selected branch carries ε = 0, which is the derivative of `|0|` -/
+theorem Tracks.absS_of_eventually_zero (ha : Tracks A f θ) (h0 : ∀ᶠ t in 𝓝 θ, f t = 0) :
+    Tracks (PfVerif.absS A) (fun t => PfVerif.absS (f t)) θ := by
+  have hv : f θ = 0 := h0.self_of_nhds
+  have e : PfVerif.absS A = A := by
+    unfold PfVerif.absS; rw [if_pos]; rw [Dual.le_iff, Dual.zero_val, ha.1, hv]
+  rw [e]
+  refine ha.congr_eventually ?_
+  filter_upwards [h0] with t ht
+  rw [ht, absS_eq_abs, abs_zero]
+
+/-- `abs` away from its kink, or on a locally vanishing function -/
+theorem Tracks.absS' (ha : Tracks A f θ) (h0 : f θ ≠ 0 ∨ ∀ᶠ t in 𝓝 θ, f t = 0) :
+    Tracks (PfVerif.absS A) (fun t => PfVerif.absS (f t)) θ :=
+  h0.elim ha.absS ha.absS_of_eventually_zero
+
 theorem Tracks.max (ha : Tracks A f θ) (hb : Tracks B g θ) (h : f θ ≠ g θ) :
     Tracks (max A B) (fun t => max (f t) (g t)) θ := by
   rw [Dual.max_def']
@@ -651,10 +668,14 @@ theorem TracksE.pure {A B : Type} {Rel : A → (ℝ → B) → Prop} {X : A} {x 
 theorem TracksE.error {A B : Type} {Rel : A → (ℝ → B) → Prop} (e : Err) :
     TracksE Rel (.error e) (fun _ => .error e) := fun _ => rfl
 
-theorem TracksE.bind {A B A' B' : Type} {Rel : A → (ℝ → B) → Prop} {Rel' : A' → (ℝ → B') → Prop}
+/-- bind; the continuation needs to be related only at the value actually produced -/
+theorem TracksE.bind' {A B A' B' : Type} {Rel : A → (ℝ → B) → Prop}
+    {Rel' : A' → (ℝ → B') → Prop}
     {R : Except Err A} {r : ℝ → Except Err B} {K : A → Except Err A'}
     {k : ℝ → B → Except Err B'}
-    (h : TracksE Rel R r) (hk : ∀ X x, Rel X x → TracksE Rel' (K X) (fun t => k t (x t))) :
+    (h : TracksE Rel R r)
+    (hk : ∀ X x, R = .ok X → (∀ t, r t = .ok (x t)) → Rel X x →
+      TracksE Rel' (K X) (fun t => k t (x t))) :
     TracksE Rel' (R >>= K) (fun t => r t >>= k t) := by
   cases R with
   | error e =>
@@ -663,11 +684,26 @@ theorem TracksE.bind {A B A' B' : Type} {Rel : A → (ℝ → B) → Prop} {Rel'
     simp only [this]; rfl
   | ok X =>
     obtain ⟨x, hx, e⟩ := h
-    have h2 := hk X x hx
+    have h2 := hk X x rfl e hx
     have e2 : (fun t => r t >>= k t) = fun t => k t (x t) := by
       funext t; rw [e t]; rfl
     rw [e2]
     exact h2
+
+theorem TracksE.bind {A B A' B' : Type} {Rel : A → (ℝ → B) → Prop} {Rel' : A' → (ℝ → B') → Prop}
+    {R : Except Err A} {r : ℝ → Except Err B} {K : A → Except Err A'}
+    {k : ℝ → B → Except Err B'}
+    (h : TracksE Rel R r) (hk : ∀ X x, Rel X x → TracksE Rel' (K X) (fun t => k t (x t))) :
+    TracksE Rel' (R >>= K) (fun t => r t >>= k t) :=
+  h.bind' fun X x _ _ hx => hk X x hx
+
+/-- on success the result is tracked -/
+theorem TracksE.of_ok {θ : ℝ} {R : Except Err (Dual ℝ)} {r : ℝ → Except Err ℝ} {D : Dual ℝ}
+    (h : TracksE (fun D f => Tracks D f θ) R r) (hR : R = .ok D) :
+    ∃ f, (∀ t, r t = .ok (f t)) ∧ Tracks D f θ := by
+  subst hR
+  obtain ⟨f, hf, e⟩ := h
+  exact ⟨f, e, hf⟩
 
 theorem TracksE.congr {A B : Type} {Rel : A → (ℝ → B) → Prop} {R : Except Err A}
     {r r' : ℝ → Except Err B} (h : TracksE Rel R r) (e : ∀ t, r' t = r t) : TracksE Rel R r' := by
